@@ -60,8 +60,9 @@ CHECKS['C05'] = dict(
 CHECKS['C15'] = dict(
     text='Machine-checked for tag-free histories: C15_idempotent_last_plain (repeating a well-formed last document gives a tree of equal content, or both builds fail), '
          'C15_empty_neutral_plain (an empty mapping document anywhere after the first is neutral), C15_update_idempotent (the reference update is idempotent; proof by fixpoint lemmas '
-         'over key-unique mappings and index-addressed lists), all lifted to the model of Builder.flatten through the C02 refinement. Partial: for tagged histories (priorities, !del, !merge) '
-         'and for the key-order and !unsafe/!new neutrality clauses the verdict comes from the correspondence (incl. exhaustive T2 sweeps of _get_child_kwargs and _propagate_implicit_values, '
+         'over key-unique mappings and index-addressed lists), C15_unsafe_marks_neutral_plain (whatever !unsafe / inherited / source-level safety marks each document carries on all of '
+         'its nodes, the merged data is the same), all lifted to the model of Builder.flatten through the C02 refinement. Partial: for tagged histories (priorities, !del, !merge), for marks '
+         'on inner nodes only, and for the key-order and !new neutrality clauses the verdict comes from the correspondence (incl. exhaustive T2 sweeps of _get_child_kwargs and _propagate_implicit_values, '
          'the two procedures whose disagreement was defect D16) and five metamorphic oracles; determinism of the functional model is trivial and is checked on the implementation by building twice.',
     design='4 (C15), 6 (D16, D18)',
     technique='Coq proofs of idempotence / neutrality of the update fold lifted by refinement; exhaustive + sampled vm_compute correspondence; metamorphic oracles (twice, repeat-last, empty, permute, mark) for replays')
